@@ -1432,6 +1432,33 @@ def c14_window(ctx):
         out.inst(k + '/key-types', okk, str(sorted(keyt)))
         if not okk:
             out.fail(k + '/key-types', '%s: the key type %s may run user comparison code inside the window' % (key_of(b), sorted(keyt)), b.where(), kind='undecided')
+    # raw duplicating reads anywhere else: from the read until the function returns (or the copy is written back) the value has two
+    # owners; a closure parameter or a crate function called in between may panic and then both owners drop it
+    from .rules_struct import is_own_prim
+    for b in F.fn_bodies():
+        if b.name in ms or F.root_of(b).name in ms:
+            continue
+        reads = [(bb, t) for bb, t in b.calls() if (is_own_prim(res(t), t) or '').startswith(('ptr::read', 'ptr::copy', 'ptr::replace', 'transmute_copy'))]
+        if not reads:
+            continue
+        cfg = ctx.cfg(b)
+        for (rbb, rt) in reads:
+            region = cfg.reach(rbb) - {rbb}
+            for bb in sorted(region):
+                t = b.blocks[bb]['term']
+                if t['t'] != 'call' or t.get('exp') or b.blocks[bb].get('cleanup'):
+                    continue
+                risky = None
+                if t.get('callee') in ('std::ops::Fn::call', 'std::ops::FnMut::call_mut', 'std::ops::FnOnce::call_once'):
+                    risky = 'the closure %s' % (t.get('self_head') or '?').replace('ref:', '').replace('param:', '')
+                elif t.get('local'):
+                    risky = 'the crate function %s' % res(t)
+                if risky:
+                    n += 1
+                    kk = 'C14-WINDOW/%s/after-%s/%s' % (key_of(b), is_own_prim(res(rt), rt), method(t))
+                    out.inst(kk, False, risky)
+                    out.fail(kk, '%s calls %s after duplicating a value with %s and before the duplicate is resolved: if the callee panics, the original and the copy '
+                                 'are both dropped while unwinding (double drop)' % (key_of(b), risky, is_own_prim(res(rt), rt)), b.where(t.get('line')))
     out.floor('window_calls', n, 8 if not ctx.fixture else 0)
     return out
 
